@@ -268,7 +268,8 @@ def execute(sc, ctx):
                 # a constant-drift box signal de-drifted at its own rate sits in one column +-1
                 if ok and mode == "own" and signal_rate is not None and parent is root and parent.tchans >= 2:
                     cols = np.argmax(child.data, axis=1)
-                    peak_ok = np.all(child.data.max(axis=1) > 500) and (cols.max() - cols.min() <= 1)
+                    # "onto a single column to within one channel": every row within one channel of the common column
+                    peak_ok = np.all(child.data.max(axis=1) > 500) and np.all(np.abs(cols - int(np.median(cols))) <= 1)
                     inband = True
                     f_end = signal_rate[1] + signal_rate[0] * parent.tchans * parent.dt
                     inband = (parent.fmin + 2 * parent.df < min(signal_rate[1], f_end)) and (max(signal_rate[1], f_end) < parent.fmax - 2 * parent.df)
